@@ -48,9 +48,30 @@ def midpoints(lo, hi, r):
     return [lo + (i + 0.5) * dx for i in range(r)]
 
 
-def reference(agg, lo, hi, r):
+def reference(agg, lo, hi, r, ctx=None, case=None, row=None):
+    """Sample the aggregated set one point at a time. When `case` is given, each sampled value is also checked against
+    an independent fold of the documented definition: S-norm over implication(degree, term membership) (reference
+    norms of vlib/refmath.py; the term memberships themselves are C03's subject)."""
     xs = midpoints(lo, hi, r)
     ys = [float(agg.membership(x)) for x in xs]
+    if case is not None and case["acts"] and len(xs) <= 128:
+        terms = [build.mk_term(a["term"]) for a in case["acts"]]
+        for x, y in zip(xs, ys):
+            want, fragile = 0.0, False
+            for a, t in zip(case["acts"], terms):
+                d = a["degree"]
+                d = float(d[row]) if isinstance(d, list) else float(d)
+                m = float(t.membership(x))
+                fragile = fragile or refmath.norm_margin(a["implication"], d, m) < 1e-9
+                v = refmath.norm(a["implication"], d, m)
+                fragile = fragile or refmath.norm_margin(case["aggregation"], want, v) < 1e-9
+                want = refmath.norm(case["aggregation"], want, v)
+            if fragile:
+                ctx.cls("aggregated_point_fragile")
+                continue
+            if not (abs(y - want) <= 1e-12 * max(1.0, abs(want)) or (math.isnan(y) and math.isnan(want))):
+                ctx.fail("aggregated-membership", dict(case, row=row), {"x": x, "got": y, "want": want})
+        ctx.cls("aggregated_points_verified", len(xs))
     return xs, ys
 
 
@@ -87,7 +108,7 @@ def check_set(ctx, case) -> None:
     nontrivial = False
     for row in range(nrows):
         agg_r, _, _ = mk_set(case, row=row if batch else None) if batch else (agg, lo, hi)
-        xs, ys = reference(agg_r, lo, hi, r)
+        xs, ys = reference(agg_r, lo, hi, r, ctx, case, row if batch else None)
         ctx.ev()
         empty = all(y == 0.0 for y in ys)
         for cls in DEFUZZ:
